@@ -7,6 +7,8 @@ from . import futb_harness as H
 from . import futb_model as M
 
 HEALTHY = H.PHEALTHY
+# VERIF_FUTB_SCALE < 1 thins the random/sampled part of the three checks (used only by the mutation self-test)
+SCALE = float(os.environ.get('VERIF_FUTB_SCALE', '1'))
 REASON = {0: [0], 1: [1], 2: [2], 3: [3], 4: [4], 5: [5]}   # pool state -> _errors canonical value
 
 
@@ -130,6 +132,11 @@ class Oracle(object):
                     self.cursor = j + 1
         if task_exp and not sends:
             self.task_nosend(task_exp, pools, pre_exc, st, op)
+        if self.which == 'C17' and not sends and pre_exc is None and not (st['exc'] and st['exc'][0] == 5) and (
+                op[0] == 'start' or (task_exp and task_exp['kind'] == 'retry')):
+            # a send_request with error_no_hosts=True ends with a message or with NoHostAvailable
+            self.flag('walk.neither_sent_nor_failed', 'after %r no message was sent and the request did not fail with NoHostAvailable '
+                      '(plan %r, pools %r)' % (op, self.plan, [H.POOL_NAMES[p] for p in pools]), 'C17_order')
         if task_exp and task_exp['kind'] == 'after_prepare':
             self.after_prepare_outcome(task_exp, pre_exc, sends, st, op, pre_queue)
         # ------------------------------------------------ C17: exhaustion
